@@ -467,6 +467,41 @@ static vnacal_t *do_load(vf_result *r, const char *path, vf_errlog *elog,
 }
 
 /*
+ * vnacal(3): at VNACAL_MAX_PRECISION the library uses hexadecimal floating
+ * point notation.  Look at the "f:" entries of the text for fprecision and
+ * at the "z0:" entries for dprecision.
+ */
+static int check_hex_notation(vf_result *r, const char *path, bool f_hex,
+	bool d_hex)
+{
+    FILE *fp = fopen(path, "r");
+    char line[4096];
+    int rc = 0;
+
+    if (fp == NULL)
+	return 0;
+    while (rc == 0 && fgets(line, sizeof(line), fp) != NULL) {
+	const char *p = line;
+	while (*p == ' ' || *p == '-')
+	    ++p;
+	if (f_hex && strncmp(p, "f: ", 3) == 0 && strstr(p, "0x") == NULL) {
+	    vf_fail(r, "gen1:max-precision-notation", "fprecision = "
+		    "VNACAL_MAX_PRECISION but the file has the frequency as "
+		    "%.60s... (%zu characters), not in hexadecimal floating "
+		    "point", p, strlen(p));
+	    rc = -1;
+	}
+	if (d_hex && strncmp(p, "z0: ", 4) == 0 && strstr(p, "0x") == NULL) {
+	    vf_fail(r, "gen1:max-precision-notation", "dprecision = "
+		    "VNACAL_MAX_PRECISION but the file has %.60s", p);
+	    rc = -1;
+	}
+    }
+    fclose(fp);
+    return rc;
+}
+
+/*
  * full round trip of vcp: gen1 = load(save(vcp)), gen2 = load(save(gen1)).
  * fp/dp: 0 = leave at the default.  scs[k]: scenario of the k-th live
  * calibration (or NULL).
@@ -488,6 +523,9 @@ static void roundtrip(vf_result *r, vnacal_t *vcp, vf_errlog *elog, int fp,
     if (set_prec(r, vcp, fp, dp) != 0)
 	return;
     if (do_save(r, vcp, path1, elog, "gen1") != 0)
+	goto out;
+    if (check_hex_notation(r, path1, fp == VNACAL_MAX_PRECISION,
+		dp == VNACAL_MAX_PRECISION) != 0)
 	goto out;
     if ((g1 = do_load(r, path1, &el1, "gen1")) == NULL)
 	goto out;
